@@ -532,6 +532,10 @@ def run(m, tier):
     results.append(guard_rules.int_operand_rule(m, "C06.R17"))
     results.append(guard_rules.match_object_rule(m, "C06.R18"))
     results.append(optional_rules.accessor_index_rule(m, "C06.R19"))
+    from rules import C08
+    from sa.report import retag
+    results.append(retag(C08.r4_opener_index(m), "C06.R20", "the block engine calls the get_start_*() protocol on content[start_idx], never on a "
+                         "comment/include/directive collected before the opening statement (AttributeError otherwise; shared with C08.R4)"))
     expl = ("Decides the structural clauses of C06: (R1) who-may-call -- no call path from the parse/print/read entry points to a "
             "process-terminating call (resolved call graph incl. grammar dispatch); (R2) every fparser exception class raised as a "
             "signal is converted at Program.__new__; (R3) every explicit raise of a non-convertible class is discharged by a guard "
